@@ -363,6 +363,14 @@ func (c *Component) installInMemoryState(sess *SessionState) {
 	c.sessionIndex.Store(sess.SessionID, sess)
 	c.addSessionToIndexes(sess)
 
+	// The exclusivity registry is rebuilt from the restored sessions: every
+	// session that is put back into the session tables owns its tuple again,
+	// also one whose dataplane restore is skipped (half-established at crash
+	// time) or fails and is retried on the next restart. claimTuple is a
+	// no-op off mixed-access S-VLANs and idempotent for the same session, so
+	// the claim setupSessionRestore makes later is harmless.
+	c.claimTuple(sess)
+
 	// Re-stake the session's addresses in the global allocator. Without this,
 	// the allocator boots with no knowledge of restored leases and a fresh
 	// DHCPDISCOVER (after StateReady flips) can be handed an IP that is
